@@ -609,6 +609,28 @@ Theorem link_file_part_refuted :
                                       is_out (chase_link L f (0, 884)) (OOBW 8)) False.
 Proof. exists wit_longfile. vm_compute. split; reflexivity. Qed.
 
+Theorem link_path_part_refuted :
+  exists bs, on_open L bs (fun f r => clean (get_link_path L f (0, 884) 5200 5200) = true /\
+                                      is_out (chase_link L f (0, 884)) (OOBW 8)) False.
+Proof. exists wit_longpath. vm_compute. split; reflexivity. Qed.
+
+(* the same with every other repair in place: each of the three output-side guards is needed on its own *)
+Definition without (g : Z) : fixes :=
+  {| fx_snt := true; fx_dct := true; fx_link := true; fx_nest := true; fx_fmt := true; fx_tag := true; fx_dtov := true;
+     fx_rtype := true; fx_dim := true; fx_short := true; fx_sizes := true; fx_rad := true;
+     fx_lfile := negb (g =? 1); fx_lpath := negb (g =? 2); fx_lnosep := negb (g =? 3) |}.
+Theorem link_no_separator_refuted :
+  exists bs, on_open L bs (fun f r => clean (get_link_path L f (0, 884) 5200 5200) = true /\
+                                      is_out (chase_link L f (0, 884)) (OOBW 8)) False /\
+             on_open (without 3) bs (fun f r => is_out (chase_link (without 3) f (0, 884)) (OOBW 8)) False.
+Proof. exists wit_nosep. vm_compute. repeat split; reflexivity. Qed.
+Lemma link_guards_independent :
+  on_open (without 1) wit_longfile (fun f r => is_out (chase_link (without 1) f (0, 884)) (OOBW 8)) False /\
+  on_open (without 2) wit_longpath (fun f r => is_out (chase_link (without 2) f (0, 884)) (OOBW 8)) False /\
+  on_open repaired wit_longpath (fun f r => chase_link repaired f (0, 884)) (Err 0) = Err 4 /\
+  on_open repaired wit_nosep (fun f r => chase_link repaired f (0, 884)) (Err 0) = Err 4.
+Proof. vm_compute. repeat split; reflexivity. Qed.
+
 Theorem link_recursion_refuted :
   exists bs, on_open L bs (fun f r => get_node_id_top L f r [76] = Ok (0, 884) /\
                                       is_out (chase_link L f (0, 884)) OutOfFuel) False.
@@ -1393,7 +1415,7 @@ Qed.
 Lemma split_link_safe full capf capp : 1025 <= capf -> 4097 <= capp -> (2 <= length full)%nat ->
   safe (split_link R full capf capp).
 Proof.
-  intros Hf1 Hp1 Hl. unfold split_link. cbn [fx_link repaired andb].
+  intros Hf1 Hp1 Hl. unfold split_link. cbn [fx_lfile fx_lpath fx_lnosep repaired andb].
   destruct (index_of 62 (cstr_or_all full)) as [[|k]|].
   - destruct full as [|x [|y t]]; cbn [length] in Hl; try lia.
     destruct (Z.gtb_spec (Z.of_nat (length (cstr_or_all (y :: t)))) 4096); [exact I|].
